@@ -3,6 +3,7 @@ package lint
 import (
 	"fmt"
 	"go/constant"
+	"go/token"
 	"go/types"
 	"strconv"
 	"strings"
@@ -460,6 +461,66 @@ func (m *Model) ruleLIVE(r *Results) {
 		}
 	})
 	// the KV read helper maps a NULL body to the missing error: see R-READ-NULL
+	// Go side: whether a row that was read is live is decided by the body being NULL (nil) or by
+	// the flag column, never by the body's length: a zero-length body is a live document
+	nb := 0
+	for _, sc := range m.scanCalls() {
+		if sc.Site == nil {
+			continue
+		}
+		for i, d := range sc.Dests {
+			isBody := false
+			for _, v := range sc.Site.Variants {
+				if st := v.Stmt(); st != nil && st.Select != nil && i < len(st.Select.Cols) && isCol(st.Select.Cols[i].Expr, "value") {
+					for _, t := range st.Tables() {
+						if t == "documents" {
+							isBody = true
+						}
+					}
+				}
+			}
+			if !isBody {
+				continue
+			}
+			nb++
+			fn := sc.Fn
+			sameLoc := func(addr ssa.Value) bool {
+				if addr == d {
+					return true
+				}
+				fa, ok1 := addr.(*ssa.FieldAddr)
+				fd, ok2 := d.(*ssa.FieldAddr)
+				return ok1 && ok2 && fa.Field == fd.Field && stripConv(fa.X) == stripConv(fd.X)
+			}
+			bad := ""
+			for _, b := range fn.Blocks {
+				for _, ins := range b.Instrs {
+					bo, ok := ins.(*ssa.BinOp)
+					if !ok {
+						continue
+					}
+					for _, pair := range [][2]ssa.Value{{bo.X, bo.Y}, {bo.Y, bo.X}} {
+						call, ok := stripConv(pair[0]).(*ssa.Call)
+						if !ok || !isZeroConst(pair[1]) {
+							continue
+						}
+						bi, ok := call.Common().Value.(*ssa.Builtin)
+						if !ok || bi.Name() != "len" {
+							continue
+						}
+						if ld, ok := stripConv(call.Common().Args[0]).(*ssa.UnOp); ok && ld.Op == token.MUL && sameLoc(ld.X) {
+							bad = m.instrPos(bo)
+						}
+					}
+				}
+			}
+			key := m.declName(fn) + " / liveness of the row read is not decided by the body's length"
+			r.check(bad == "", rule, key, m.instrPos(sc.Call), "no test of len(<body read>) against 0", "the body read from the row is tested with len(...) against 0 (at "+bad+"): a live document with a zero-length body is then treated as a tombstone / as missing")
+		}
+	}
+	if nb < 4 {
+		r.undecided(rule, "body reads", "-", "only %d scans of the body column found", nb)
+	}
 	r.floor(rule, 2)
 }
 
